@@ -223,7 +223,7 @@ package sgip12
 //@     invariant packet.rinv(b)
 //@     invariant 0 <= i && i <= int(p.UserCount)
 //@     invariant len(p.UserNumber) == entry(len(p.UserNumber)) + i
-//@     invariant entry(cap(p.UserNumber)) == 0 ==> fresh(p.UserNumber) || cap(p.UserNumber) == 0
+//@     invariant old(cap(p.UserNumber)) == 0 ==> fresh(p.UserNumber) || cap(p.UserNumber) == 0
 //@     invariant @reuse kept(p.UserNumber)
 //@     invariant entry(packet.rfailed(b)) ==> packet.rfailed(b)
 //@     invariant !packet.rfailed(b) ==> len(packet.rem(b)) <= entry(len(packet.rem(b)))
